@@ -102,14 +102,27 @@ func worldC05(w *World) {
 		sizes = append(sizes, 1<<20, 2<<20)
 	}
 	n := t.Range(1, nMax, "chunks")
+	// trickle: the backend does not wait for anybody; it flushes many tiny chunks
+	// at short regular intervals (each must still become visible within the bound)
+	trickle := t.Rare(1, 5, "trickle")
+	trickleGap := []time.Duration{4 * time.Millisecond, 20 * time.Millisecond, 40 * time.Millisecond}[t.Choice(3, "tricklegap")]
+	if trickle {
+		n = []int{60, 200, 700}[t.Choice(3, "tricklechunks")]
+	}
 	chunks := make([]int, n)
 	pauses := make([]time.Duration, n)
 	total := 0
 	for i := range chunks {
 		chunks[i] = sizes[t.Choice(len(sizes), "chunksize")]
 		pauses[i] = []time.Duration{0, 0, 10 * time.Millisecond, 5 * time.Second}[t.Choice(4, "pause")]
+		if trickle {
+			chunks[i] = 1 + i%4
+			pauses[i] = trickleGap
+		}
 		total += chunks[i]
 	}
+	// the backend may take a while before it produces the first byte
+	startDelay := []time.Duration{0, 0, 300 * time.Millisecond, 2 * time.Second}[t.Choice(4, "startdelay")]
 	// bounded time: documented flush interval (100 ms) plus network, with slack
 	// bounded time per chunk: flush interval and processing slack, plus the
 	// time the simulated network needs to carry the chunk over two hops
@@ -148,6 +161,8 @@ func worldC05(w *World) {
 	// still being streamed (the retry must replay what was sent and keep streaming)
 	// (only while the prefix sent so far is still replayable: first chunk well below 4 KiB)
 	early503 := t.Rare(1, 4, "early503") && chunks[0] <= 3000
+	// ... or refuses the first attempt at once, before the response has even started
+	refuseFirst := !early503 && startDelay > 0 && t.Rare(1, 2, "refusefirst")
 	htmlType := !banner && t.Rare(1, 3, "htmltype")
 	var mu sync.Mutex
 	sc := &streamCounter{}
@@ -155,6 +170,12 @@ func worldC05(w *World) {
 		mu.Lock()
 		*sc = streamCounter{}
 		mu.Unlock()
+		if refuseFirst && attempt == 0 {
+			w.K.Count("fault.upload_503_before_response_started")
+			rw.Header().Set("Connection", "close")
+			http.Error(rw, "injected", 503)
+			return true
+		}
 		if early503 && attempt == 0 {
 			w.K.Count("fault.upload_503_while_streaming")
 			// wait for the first body bytes, then refuse
@@ -167,10 +188,16 @@ func worldC05(w *World) {
 		return false
 	}
 	seen := make(chan int, 100000)
+	type arrival struct {
+		body int
+		at   time.Duration
+	}
+	var arrivals []arrival
 	fp.OnChunk = func(_ string, _ int, piece []byte) {
 		mu.Lock()
 		sc.Feed(piece)
 		b := sc.Body
+		arrivals = append(arrivals, arrival{b, w.K.Now()})
 		mu.Unlock()
 		select {
 		case seen <- b:
@@ -198,10 +225,27 @@ func worldC05(w *World) {
 			if declareLength {
 				rw.Header().Set("Content-Length", fmt.Sprint(total))
 			}
+			if startDelay > 0 {
+				time.Sleep(startDelay)
+			}
 			rw.WriteHeader(200)
 			fl := rw.(http.Flusher)
 			sent := 0
 			have := 0
+			if trickle {
+				for i, sz := range chunks {
+					time.Sleep(pauses[i])
+					if _, err := rw.Write(tokenBody(fmt.Sprintf("chunk%d", i), sz)); err != nil {
+						return
+					}
+					fl.Flush()
+					mu.Lock()
+					obs[i].flushed = w.K.Now()
+					mu.Unlock()
+				}
+				finished = true
+				return
+			}
 			for i, sz := range chunks {
 				if pauses[i] > 0 {
 					time.Sleep(pauses[i])
@@ -253,10 +297,38 @@ func worldC05(w *World) {
 		for _, e := range w.K.Exits {
 			w.Violation("crash", "node %s exited: %s", e.Node, e.Msg)
 		}
+		if trickle {
+			// when did each chunk's last byte become visible at the proxy?
+			mu.Lock()
+			off := 0
+			j := 0
+			for i := range obs {
+				off += chunks[i]
+				for j < len(arrivals) && arrivals[j].body < off {
+					j++
+				}
+				if j < len(arrivals) {
+					obs[i].visible = arrivals[j].at
+					obs[i].ok = obs[i].visible-obs[i].flushed <= bound(chunks[i])
+				}
+				if refuseFirst || early503 {
+					obs[i].ok = obs[i].ok || j < len(arrivals) // a replayed prefix arrives late by design
+				}
+			}
+			mu.Unlock()
+			w.Probe("trickle_of_tiny_chunks")
+		}
+		if refuseFirst {
+			w.Probe("upload_refused_before_response_started")
+		}
 		for i, o := range obs {
 			if !o.ok {
 				if o.flushed == 0 && i > 0 && !obs[i-1].ok {
 					break
+				}
+				if trickle {
+					w.Violation("streaming", "chunk %d of %d (%d bytes, flushed at %v) was not visible at the proxy within %v while the backend kept producing | visible at %v", i+1, n, chunks[i], o.flushed, bound(chunks[i]), o.visible)
+					return
 				}
 				w.Violation("streaming", "chunk %d of %d (%d bytes, flushed at %v) was not visible at the proxy within %v while the backend was waiting", i+1, n, chunks[i], o.flushed, bound(chunks[i]))
 				return
